@@ -8,7 +8,10 @@
 package main
 
 import (
+	"encoding/json"
 	"flag"
+	"fmt"
+	"os"
 	"strings"
 	"time"
 
@@ -43,16 +46,59 @@ func main() {
 			}
 			cfgs = sel
 		}
-		for i, c := range cfgs {
-			// equal share of what is left for every remaining search
-			restoreOne := r.Limit(r.Remaining() / time.Duration(len(cfgs)-i))
-			res := runLocal(r, c)
-			restoreOne()
-			states += res.States
-			trans += res.Transitions
-			validated += res.Transitions
-			per = append(per, map[string]interface{}{"search": "local/" + c.name, "states": res.States, "transitions": res.Transitions,
-				"depth_completed": res.DepthCompleted, "per_depth": res.PerDepth, "merge_checks": res.MergeChecks, "prefix": c.prefix})
+		// The searches run in worker processes (4 at a time, 4 expansion goroutines each): the repository's serializer takes
+		// one process-wide exclusive lock per encoded interface value (ser.typeCacheMutex), so goroutines of ONE process
+		// do not scale beyond about 4 cores on this code.
+		type localOut struct {
+			Res vk.Result   `json:"res"`
+			Exp vk.Exported `json:"exp"`
+		}
+		if vk.IsWorker() {
+			os.Setenv("VERIF_WORKERS", "4")
+			const shards = 4
+			vk.WorkerLoop(len(cfgs), func(i int) interface{} {
+				// equal share of what is left for every remaining search of this worker's shard
+				restoreOne := r.Limit(r.Remaining() / time.Duration((len(cfgs)-1-i)/shards+1))
+				res := runLocal(r, cfgs[i])
+				restoreOne()
+				return localOut{res, r.Export()}
+			})
+		}
+		if r.ReplayPath != "" || os.Getenv("C01_INPROC") != "" { // replay of one case / developer aid: in this process
+			for _, c := range cfgs {
+				runLocal(r, c)
+			}
+		} else {
+			outs := make([]*localOut, len(cfgs))
+			extra := []string{"--part", "local", "--budget", r.Remaining().String()}
+			if *only != "" {
+				extra = append(extra, "--only", *only)
+			}
+			// one search per worker process invocation; a worker that dies or hangs is a harness error for that search
+			r.RunIsolated(len(cfgs), vk.IsoOpts{Workers: 4, Procs: 5, CaseTimeout: r.Remaining() + 30*time.Second, ExtraArgs: extra}, func(i int, raw json.RawMessage, fatal string) {
+				if fatal != "" {
+					vk.Fatalf("local/%s: worker failed: %s", cfgs[i].name, fatal)
+				}
+				var o localOut
+				if err := json.Unmarshal(raw, &o); err != nil {
+					vk.Fatalf("local/%s: worker output: %v", cfgs[i].name, err)
+				}
+				outs[i] = &o
+			})
+			for i, c := range cfgs {
+				o := outs[i]
+				if o == nil {
+					r.Capped(fmt.Sprintf("local/%s: not run before the deadline", c.name))
+					continue
+				}
+				r.Import(o.Exp)
+				res := o.Res
+				states += res.States
+				trans += res.Transitions
+				validated += res.Transitions
+				per = append(per, map[string]interface{}{"search": "local/" + c.name, "states": res.States, "transitions": res.Transitions,
+					"depth_completed": res.DepthCompleted, "per_depth": res.PerDepth, "merge_checks": res.MergeChecks, "prefix": c.prefix})
+			}
 		}
 		restore()
 	}
